@@ -6,10 +6,12 @@ import (
 	"fmt"
 	"os"
 
+	"verifharness/drive/c18"
 	"verifharness/drive/c20"
 )
 
 var drivers = map[string]func(args []string) error{
+	"c18": c18.Main,
 	"c20": c20.Main,
 }
 
